@@ -4,6 +4,7 @@ import (
 	"bytes"
 	"crypto/sha256"
 	"fmt"
+	"github.com/crate-crypto/go-ipa/common/parallel"
 	"math/big"
 	"os"
 	"os/exec"
@@ -160,6 +161,66 @@ func c12Ops() []c12op {
 			ok, verr := multiproof.CheckMultiProof(common.NewTranscript("vt"), c, p, is.Cs, is.ys, is.zs)
 			return fmt.Sprintf("%x %v %v", proofBytes(p), ok, verr)
 		}},
+		{"DivideOnDomain / ComputeBarycentricCoefficients on the shared weights", false, func(c *ipa.IPAConfig, seed int64, slot int) string {
+			f := frsFromBig(pick(polyAlphabet(seed), 12+slot).V)
+			q := c.PrecomputedWeights.DivideOnDomain(uint8(9+100*slot), f)
+			b := c.PrecomputedWeights.ComputeBarycentricCoefficients(frFromBig(bi(int64(1000 + slot))))
+			return frsDigest(q) + frsDigest(b)
+		}},
+		{"Element arithmetic (ScalarMul, Add, Sub, Double, Neg, Equal)", false, func(c *ipa.IPAConfig, seed int64, slot int) string {
+			a, b := reprOf(c.SRS[80+slot], reprProj), c.SRS[90+slot]
+			k := frFromBig(prfR(seed, "c12e", slot))
+			var x, y, z, w banderwagon.Element
+			x.ScalarMul(&a, &k)
+			y.Add(&x, &b)
+			z.Sub(&y, &a)
+			w.Double(&z)
+			w.Neg(&w)
+			return fmt.Sprint(elString(&x), elString(&w), x.Equal(&w), w.Equal(&w))
+		}},
+		{"fr arithmetic (Mul, Inverse, Exp, Sqrt, Legendre, Div)", false, func(c *ipa.IPAConfig, seed int64, slot int) string {
+			a, b := frFromBig(prfR(seed, "c12f", slot)), frFromBig(prfR(seed, "c12g", slot))
+			out := make([]fr.Element, 5)
+			out[0].Mul(&a, &b)
+			out[1].Inverse(&a)
+			out[2].Exp(b, big.NewInt(int64(65537+slot)))
+			out[3].Square(&a)
+			out[3].Sqrt(&out[3])
+			out[3].Square(&out[3])
+			out[4].Div(&a, &b)
+			return frsDigest(out) + fmt.Sprint(a.Legendre())
+		}},
+		{"batch helpers (ElementsToBytes, BatchToBytesUncompressed, BatchMapToScalarField, fr.BatchInvert)", true, func(c *ipa.IPAConfig, seed int64, slot int) string {
+			els := []banderwagon.Element{reprOf(c.SRS[100+slot], reprProj), c.SRS[110+slot], reprOf(c.SRS[120+slot], reprProjFlip)}
+			ptrs := []*banderwagon.Element{&els[0], &els[1], &els[2], &els[0]}
+			s := ""
+			for _, b := range banderwagon.ElementsToBytes(ptrs...) {
+				s += hx(b[:6])
+			}
+			for _, b := range banderwagon.BatchToBytesUncompressed(ptrs...) {
+				s += hx(b[:6])
+			}
+			res := make([]*fr.Element, len(ptrs))
+			for i := range res {
+				res[i] = new(fr.Element)
+			}
+			err := banderwagon.BatchMapToScalarField(res, ptrs)
+			for _, x := range res {
+				s += frToBig(*x).Text(16)[:8]
+			}
+			inv := fr.BatchInvert([]fr.Element{frFromBig(bi(int64(3 + slot))), {}, frFromBig(prfR(seed, "c12b", slot))})
+			return s + frsDigest(inv) + fmt.Sprint(err)
+		}},
+		{"parallel.Execute(37, work, 3)", true, func(c *ipa.IPAConfig, seed int64, slot int) string {
+			n := 37 + slot
+			hits := make([]int, n)
+			parallel.Execute(n, func(start, end int) {
+				for i := start; i < end; i++ {
+					hits[i] += 1 + slot
+				}
+			}, 3)
+			return fmt.Sprint(hits)
+		}},
 		{"CreateMultiProof(n=5 and n=17: more openings than workers)", true, func(c *ipa.IPAConfig, seed int64, slot int) string {
 			polys := polyAlphabet(seed)
 			out := ""
@@ -228,23 +289,25 @@ func c12ProcessStart(r *core.Result) {
 		if confVal != nil {
 			return // the configuration already exists in this process: no longer a first use
 		}
+		// four callers, two of them in the opposite order: the second pair reaches each construction after the
+		// first pair has been through it, without any synchronisation in between — lazily built shared state
+		// that is published before it is complete is then read by a late-comer whatever the timing
 		pws := make([]*ipa.PrecomputedWeights, 4)
-		if !timed(r, "c12.panic", "ipa.NewPrecomputedWeights", "4 concurrent first constructions in a fresh process", func() {
+		srs := make([][]banderwagon.Element, 4)
+		if timed(r, "c12.panic", "ipa.NewPrecomputedWeights / ipa.GenerateRandomPoints", "4 concurrent first constructions in a fresh process (two callers build the weights first, two the generators first)", func() {
 			var wg sync.WaitGroup
 			for i := range pws {
 				wg.Add(1)
-				go func(i int) { defer wg.Done(); pws[i] = ipa.NewPrecomputedWeights() }(i)
-			}
-			wg.Wait()
-		}) {
-			return
-		}
-		srs := make([][]banderwagon.Element, 4)
-		if timed(r, "c12.panic", "ipa.GenerateRandomPoints", "4 concurrent first derivations of the first 256 generators in a fresh process", func() {
-			var wg sync.WaitGroup
-			for i := range srs {
-				wg.Add(1)
-				go func(i int) { defer wg.Done(); srs[i] = ipa.GenerateRandomPoints(256) }(i)
+				go func(i int) {
+					defer wg.Done()
+					if i%2 == 0 {
+						srs[i] = ipa.GenerateRandomPoints(256)
+						pws[i] = ipa.NewPrecomputedWeights()
+					} else {
+						pws[i] = ipa.NewPrecomputedWeights()
+						srs[i] = ipa.GenerateRandomPoints(256)
+					}
+				}(i)
 			}
 			wg.Wait()
 		}) {
@@ -287,6 +350,11 @@ func c12Free(r *core.Result, seed int64, reps int) {
 				wg.Add(1)
 				go func(i, slot int) {
 					defer wg.Done()
+					if slot == 1 {
+						// late-comer: reaches its own operation after the slot-0 caller has been through it,
+						// with no synchronisation in between
+						ops[(i+len(ops)/2)%len(ops)].f(c, seed, 1)
+					}
 					first[i][slot] = ops[i].f(c, seed, slot)
 				}(i, slot)
 			}
